@@ -84,3 +84,6 @@ add("C32", "model_checking", "bounded-exhaustive write histories (scripted real 
 add("C26", "model_checking", "stateless deviation-bounded DFS over interleavings of the real replication Sender, stream handlers and disconnect points (environment choices)",
     "real Sender.Run goroutine + committer + two real GetWALStream handlers on fake gRPC streams whose Send may fail at any explorer-chosen point; ALL schedules and disconnect points with <=2 deviations (thorough 3); no panic, no deadlock, in-order delivery, and a connected replica registered before commit i receives i, i+1, ...",
     SC + "; gRPC transport replaced by a fake stream", "schedmc")
+add("C25", "exploration", "bounded-exhaustive enumeration of (write history, grouping into transactions), master vs replica differential through the real Replayer",
+    "every history of <=3 writes over 5 bucket kinds (fixed 1Min/1D, variable 1Sec/1Min/1H) x every partition into consecutive groups flushed as ONE transaction by the real SyncWAL loop (scheduler policy: all writers of a group queue first), so mixed fixed/variable transactions occur; captured transactions are applied on a replica server via ParseTGData + WriteCSM and all buckets compared over three ranges",
+    TB + "; two server instances on one device; scripted scheduler policy", "seqmc")
